@@ -69,3 +69,17 @@ def is_element(e: "ref") -> bool:
     return (typeof(e, "Paragraph") or typeof(e, "Field") or typeof(e, "DocTest") or typeof(e, "RSTList") or
             typeof(e, "Heading") or typeof(e, "SimpleTable") or typeof(e, "DirectiveHeading") or
             typeof(e, "Option") or typeof(e, "Directive") or typeof(e, "RSTWriter"))
+
+
+# ---------------------------------------------------------------- library functions kept uninterpreted (A2, A3)
+@spec(axioms_only=True)
+def re_sub(pattern: str, s: str) -> str:
+    """re.sub(pattern, "", s)"""
+    import re
+    return re.sub(pattern, "", s)
+
+
+@spec(axioms_only=True)
+def textwrap_dedent(text: str) -> str:
+    import textwrap
+    return textwrap.dedent(text)
